@@ -557,21 +557,27 @@ Proof.
 Qed.
 
 (* ---- the number of frames of a whole request with speculative fibers ---------------------------- *)
+Lemma list_sum_cons a l : list_sum (a :: l) = (a + list_sum l)%nat.
+Proof. reflexivity. Qed.
+
 Lemma list_sum_const {A} (c : nat) (l : list A) : list_sum (map (fun _ => c) l) = (List.length l * c)%nat.
-Proof. induction l as [|a l IH]; cbn; [reflexivity|]. rewrite IH. lia. Qed.
+Proof.
+  induction l as [|a l IH]; [reflexivity|].
+  change (c + list_sum (map (fun _ : A => c) l) = S (List.length l) * c)%nat. rewrite IH. lia.
+Qed.
 
 Lemma list_sum_const0 {A} (l : list A) : list_sum (map (fun _ => 0%nat) l) = 0%nat.
 Proof. rewrite (list_sum_const 0%nat l). lia. Qed.
 
 Lemma list_sum_add {A} (g h : A -> nat) l :
   list_sum (map (fun i => (g i + h i)%nat) l) = (list_sum (map g l) + list_sum (map h l))%nat.
-Proof. induction l as [|a l IH]; cbn; [reflexivity|]. rewrite IH. lia. Qed.
+Proof. induction l as [|a l IH]; [reflexivity|]. cbn [map]. rewrite !list_sum_cons, IH. lia. Qed.
 
 Lemma list_sum_le {A} (g h : A -> nat) l :
   (forall i, In i l -> (g i <= h i)%nat) -> (list_sum (map g l) <= list_sum (map h l))%nat.
 Proof.
-  induction l as [|a l IH]; intros H; cbn; [lia|].
-  pose proof (H a (or_introl eq_refl)). assert (forall i, In i l -> (g i <= h i)%nat) by (intros; apply H; now right).
+  induction l as [|a l IH]; intros H; [cbn; lia|]. cbn [map]. rewrite !list_sum_cons.
+  pose proof (H a (or_introl eq_refl)). assert (H1 : forall i, In i l -> (g i <= h i)%nat) by (intros; apply H; now right).
   specialize (IH H1). lia.
 Qed.
 
@@ -579,21 +585,14 @@ Lemma sum_indicator a n : forall k,
   list_sum (map (fun i => if Nat.eqb a i then 1%nat else 0%nat) (seq k n))
   = if ((k <=? a)%nat && (a <? k + n)%nat)%bool then 1%nat else 0%nat.
 Proof.
-  induction n as [|n IH]; intros k; cbn [seq map list_sum].
-  - destruct (k <=? a)%nat eqn:E1; cbn; [|reflexivity].
-    destruct (a <? k + 0)%nat eqn:E2; [|reflexivity].
-    apply Nat.leb_le in E1. apply Nat.ltb_lt in E2. lia.
-  - rewrite IH. destruct (Nat.eqb a k) eqn:Ek.
-    + apply Nat.eqb_eq in Ek. subst k.
-      replace (S a <=? a)%nat with false by (symmetry; apply Nat.leb_gt; lia). cbn [andb].
-      replace (a <=? a)%nat with true by (symmetry; apply Nat.leb_le; lia).
-      replace (a <? a + S n)%nat with true by (symmetry; apply Nat.ltb_lt; lia). reflexivity.
-    + apply Nat.eqb_neq in Ek. cbn [Nat.add].
-      destruct (S k <=? a)%nat eqn:E1; destruct (k <=? a)%nat eqn:E2;
-        destruct (a <? S k + n)%nat eqn:E3; destruct (a <? k + S n)%nat eqn:E4; cbn; try reflexivity;
-        try apply Nat.leb_le in E1; try apply Nat.leb_gt in E1; try apply Nat.leb_le in E2;
-        try apply Nat.leb_gt in E2; try apply Nat.ltb_lt in E3; try apply Nat.ltb_ge in E3;
-        try apply Nat.ltb_lt in E4; try apply Nat.ltb_ge in E4; lia.
+  induction n as [|n IH]; intros k; cbn [seq map]; [|rewrite list_sum_cons].
+  - cbn [list_sum fold_right].
+    destruct ((k <=? a)%nat && (a <? k + 0)%nat)%bool eqn:E; [|reflexivity].
+    apply andb_true_iff in E as [E1 E2]. apply Nat.leb_le in E1. apply Nat.ltb_lt in E2. lia.
+  - rewrite IH.
+    destruct (Nat.eqb_spec a k); destruct (Nat.leb_spec (S k) a); destruct (Nat.ltb_spec a (S k + n));
+      destruct (Nat.leb_spec k a); destruct (Nat.ltb_spec a (k + S n)); cbn [andb];
+      try reflexivity; lia.
 Qed.
 
 Definition count_idx {A} (i : nat) (l : list (nat * A)) : nat :=
@@ -684,4 +683,30 @@ Proof.
     eapply multi_bound; eassumption.
   - destruct (e2e_check_closed _ _ _ _ _ _ _ _ _ _ _ _ H Hg) as [c [-> Hs]].
     eapply single_prop_frames; eassumption.
+Qed.
+
+Lemma e2e_request_bound p idem spec cl0 nodes down cs assign frs tret o co :
+  e2e_check p idem spec cl0 nodes down cs assign frs tret o co = true ->
+  (List.length frs
+   <= frame_bound p (match gate_open idem spec with Some max => 1 + max | None => 1 end)
+                  (List.length nodes))%nat.
+Proof.
+  intros H. destruct (gate_open idem spec) as [max|] eqn:Hg.
+  - eapply multi_bound. eapply e2e_check_open; eassumption.
+  - destruct (e2e_check_closed _ _ _ _ _ _ _ _ _ _ _ _ H Hg) as [c [-> Hs]].
+    pose proof (single_prop_frames _ _ spec _ _ _ _ _ _ _ _ Hs Hg) as Hp.
+    unfold prop_frames in Hp. rewrite Hg in Hp.
+    destruct (single_sound _ _ _ _ _ _ _ _ _ _ Hs) as [tr [r [Hf [Ho _]]]].
+    pose proof (Forall2_length Ho) as Hl. unfold frame_bound. destruct p.
+    + pose proof (single_bound _ _ _ _ _ _ _ _ _ _ Hs). cbn in *. lia.
+    + pose proof (single_bound _ _ _ _ _ _ _ _ _ _ Hs). cbn in *. lia.
+    + pose proof (fiber_fallthrough_one _ _ _ _ _ _ Hf). lia.
+Qed.
+
+Lemma single_no_more p idem cl0 nodes down c frs tret o co :
+  check_single p idem cl0 nodes down c frs tret o co = true ->
+  frames_follow idem (new_session p) frs = true.
+Proof.
+  intros H. destruct (single_sound _ _ _ _ _ _ _ _ _ _ H) as [tr [r [Hf [Ho _]]]].
+  apply fiber_Exec in Hf. exact (Exec_frames_follow _ _ _ _ _ _ _ _ _ Hf Ho).
 Qed.
